@@ -731,7 +731,7 @@ func (e *explorer) doSelect(s *pstate, f *pframe, x *ssa.Select) []*pstate {
 			tup = append(tup, aTop)
 		}
 		bf.env[x] = aval{k: kTuple, tup: tup}
-		base.trace = append(base.trace, pevent{Kind: "select", Args: []string{name}, Pos: e.c.instrPos(x)})
+		base.trace = append(base.trace, pevent{Kind: "select", Args: []string{name, e.c.selectDesc(x)}, Pos: e.c.instrPos(x)})
 		bf.idx++
 		return base
 	}
@@ -942,6 +942,7 @@ func (e *explorer) doCall(s *pstate, f *pframe, in ssa.Instruction, cc *ssa.Call
 				}
 			}
 			s.frames = append(s.frames, nf)
+			s.trace = append(s.trace, pevent{Kind: "enter", Args: []string{e.c.fnName(callee)}, Pos: pos})
 			return []*pstate{s}
 		}
 		if pkgPathOf(callee) == e.pkg {
